@@ -1,4 +1,9 @@
 import ProbLogModel.Formula
+import ProbLogProofs.Lemmas.FormulaBasic
+import ProbLogProofs.Lemmas.FormulaOps
+import ProbLogProofs.Lemmas.FormulaAcyclic
+import ProbLogProofs.Lemmas.FormulaAtom
+import ProbLogProofs.Lemmas.FormulaDisjunct
 /-!
 # C11 — the ground-program builder preserves Boolean meaning (property theorems only)
 -/
@@ -31,5 +36,367 @@ theorem C11_negate_involutive (k : Key) : negate (negate k) = k := by
     · rw [negate_some k h0, negate_some (-k) (by omega)]; simp
 
 example : keyVal (fun i => i == 2) (negate (some (-2))) = true := by decide
+
+
+/-!
+## The builder operations
+
+Definitions used below (in `ProbLogProofs/Lemmas/FormulaBasic.lean`):
+* `Node.erase` drops the name of a node; `Grows S S' := ∃ ext, S'.nodes.map Node.erase = S.nodes.map Node.erase ++ ext`
+  (the node array only grows; names of existing nodes may change);
+* `WF S`: whatever `lookup` finds in `idxConj` / `idxDisj` / `idxAtom` is a 1-based index of a node of that
+  shape with exactly these children / this identifier (the hash-consing invariant);
+* `Consistent S ρ` (model file): every compound node's value under `ρ` is the AND / OR of its children.
+All theorems hold for every option record `S.opts`.
+-/
+
+/-! ### 1. earlier keys keep their meaning -/
+
+theorem C11_grows_consistent {S S' : Store} {ρ : Nat → Bool} (hg : Grows S S') (hc : Consistent S' ρ) :
+    Consistent S ρ := hg.consistent hc
+
+/-- If key `k` equals the Boolean expression `e ρ` in every valuation consistent with `S`, the same holds for every
+    valuation consistent with a later store `S'`. -/
+theorem C11_earlier_keys_keep_meaning {S S' : Store} (hg : Grows S S') (k : Key) (e : (Nat → Bool) → Bool)
+    (h : ∀ ρ, Consistent S ρ → keyVal ρ k = e ρ) : ∀ ρ, Consistent S' ρ → keyVal ρ k = e ρ :=
+  fun ρ hc => h ρ (hg.consistent hc)
+
+theorem C11_grows_refl (S : Store) : Grows S S := Grows.refl S
+
+theorem C11_grows_trans {S S' S'' : Store} (h1 : Grows S S') (h2 : Grows S' S'') : Grows S S'' := h1.trans h2
+
+/-! ### 2. `_add_compound`, `add_and`, `add_or` -/
+
+/-- `_add_compound` for every option record, store and argument list: the invariant is kept, the store only grows,
+    and the returned key denotes the AND / OR of the given children in every valuation consistent with the new store
+    (TRUE/FALSE folding, duplicate elimination or `keepDuplicates`, opposite literals, single-child collapse with and
+    without `avoidNameClash`, hash-consing reuse, `keepAll`, `compact = some false`, placeholders). -/
+theorem C11_addCompound_spec {S S' : Store} {kind : Kind} {content : List Key} {readonly : Bool}
+    {name : Option Name} {placeholder : Bool} {compact : Option Bool} {k : Key} (hw : WF S)
+    (h : addCompound S kind content readonly name placeholder compact = .ok (S', k)) :
+    WF S' ∧ Grows S S' ∧
+    (∀ ρ, Consistent S' ρ → keyVal ρ k =
+      (match kind with
+       | .conj => content.all (keyVal ρ)
+       | .disj => content.any (keyVal ρ))) ∧
+    S'.opts = S.opts := by
+  have hc := addCompound_cres _ _ _ _ _ _ _ _ _ h
+  refine ⟨hc.wf hw, hc.grows, fun ρ hcons => ?_, hc.opts⟩
+  have := hc.sem hw ρ hcons
+  cases kind <;> exact this
+
+/-- The only failure of `_add_compound` is Python's `assert content`. -/
+theorem C11_addCompound_error {S : Store} {kind : Kind} {content : List Key} {readonly : Bool}
+    {name : Option Name} {placeholder : Bool} {compact : Option Bool} {e : Err}
+    (h : addCompound S kind content readonly name placeholder compact = .error e) :
+    e = .assertion ∧ placeholder = false ∧ content = [] := by
+  exact addCompound_error h
+
+theorem C11_addAnd {S S' : Store} {cs : List Key} {name : Option Name} {compact : Option Bool} {k : Key}
+    (hw : WF S) (h : S.addAnd cs name compact = .ok (S', k)) :
+    WF S' ∧ Grows S S' ∧ (∀ ρ, Consistent S' ρ → keyVal ρ k = cs.all (keyVal ρ)) ∧ S'.opts = S.opts :=
+  C11_addCompound_spec hw h
+
+theorem C11_addOr {S S' : Store} {cs : List Key} {readonly : Bool} {name : Option Name} {placeholder : Bool}
+    {compact : Option Bool} {k : Key} (hw : WF S)
+    (h : S.addOr cs readonly name placeholder compact = .ok (S', k)) :
+    WF S' ∧ Grows S S' ∧ (∀ ρ, Consistent S' ρ → keyVal ρ k = cs.any (keyVal ρ)) ∧ S'.opts = S.opts :=
+  C11_addCompound_spec (kind := .disj) (readonly := readonly && !placeholder) hw h
+
+/-! ### 3. `add_atom`, `add_name` -/
+
+/-- `add_atom` (including the AD-constraint path that may append the extra atom): invariant kept, store only grows.
+    Atoms are free, so there is no semantic equation. -/
+theorem C11_addAtom_grows {S S' : Store} {ident : Ident} {pc : PClass} {w : Weight} {group : Option Nat}
+    {name : Option Name} {crExtra isExtra : Bool} {k : Key} (hw : WF S)
+    (h : S.addAtom ident pc w group name crExtra isExtra = (S', k)) : WF S' ∧ Grows S S' := by
+  have hs := addAtom_step S ident pc w group name crExtra isExtra
+  rw [h] at hs
+  exact ⟨hs.1 hw, hs.2.1⟩
+
+/-- The key returned by `add_atom`: either a constant with the store untouched, or a positive key `i` that the
+    atom table of the new store maps `ident` to - with `WF S'` (previous theorem) node `i` is an atom with this
+    identifier, and the entries of the atom table are never overwritten, so the same identifier keeps its key. -/
+theorem C11_addAtom_key {S S' : Store} {ident : Ident} {pc : PClass} {w : Weight} {group : Option Nat}
+    {name : Option Name} {crExtra isExtra : Bool} {k : Key}
+    (h : S.addAtom ident pc w group name crExtra isExtra = (S', k)) :
+    (S' = S ∧ (k = TRUE ∨ k = FALSE)) ∨
+    (∃ i : Nat, k = some (i : Int) ∧ lookup S'.idxAtom ident = some i) ∧
+      ∀ id v, lookup S.idxAtom id = some v → lookup S'.idxAtom id = some v := by
+  have hk := addAtom_key S ident pc w group name crExtra isExtra
+  have hs := addAtom_step S ident pc w group name crExtra isExtra
+  rw [h] at hk hs
+  rcases hk with h1 | h2
+  · exact Or.inl h1
+  · exact Or.inr ⟨h2, hs.2.2.1⟩
+
+theorem C11_addName_preserves {S : Store} (hw : WF S) (n : Name) (k : Key) (l : Label) (keep : Bool)
+    (ρ : Nat → Bool) :
+    WF (S.addName n k l keep) ∧ Grows S (S.addName n k l keep) ∧
+    (Consistent (S.addName n k l keep) ρ ↔ Consistent S ρ) :=
+  ⟨addName_wf hw n k l keep, addName_grows S n k l keep,
+   ⟨(addName_grows S n k l keep).consistent, (addName_grows' S n k l keep).consistent⟩⟩
+
+/-! ### 4. `add_disjunct` -/
+
+/-- `add_disjunct` on a mutable disjunction `k` (a node no hash-consing entry points to): it returns `k`, the node's
+    equation gains exactly the new disjunct, the node array is the old one with at most one node appended (the
+    `maxArity` split) and node `k` replaced by a disjunction with the same name - every other node is literally
+    unchanged -, and `k` is still mutable afterwards.  The hypothesis `hmut` is exactly what makes the `maxArity`
+    path sound: the inner `add_or(children)` can only return an existing compound node through `idxDisj`, hence
+    never `k` itself (see `C11_addDisjunct_hashconsed_refuted`). -/
+theorem C11_addDisjunct {S S' : Store} {k : Int} {children : List Key} {nm : Option Name} {comp r : Key}
+    (hw : WF S) (hnode : S.getNode? k = some (.disj children nm)) (hk : 0 < k)
+    (hmut : ∀ cs, lookup S.idxDisj cs ≠ some k.toNat)
+    (h : S.addDisjunct (some k) comp = .ok (S', r)) :
+    r = some k ∧ WF S' ∧
+    (∀ ρ, Consistent S' ρ → keyVal ρ (some k) = (children.any (keyVal ρ) || keyVal ρ comp)) ∧
+    (∃ (ext : List Node) (newch : List Key), ext.length ≤ 1 ∧
+      S'.nodes = (S.nodes ++ ext).set (k.toNat - 1) (.disj newch nm)) ∧
+    (∀ cs, lookup S'.idxDisj cs ≠ some k.toNat) ∧ S'.opts = S.opts := by
+  obtain ⟨n, rfl⟩ := Int.eq_ofNat_of_zero_le (Int.le_of_lt hk)
+  have hn : 1 ≤ n := by omega
+  simp only [Int.toNat_natCast] at hmut ⊢
+  have hnode' : S.nodes[n - 1]? = some (Node.disj children nm) := by
+    unfold Store.getNode? at hnode; rwa [Int.natAbs_natCast] at hnode
+  obtain ⟨hr, hres⟩ := addDisjunct_nat S n hn children nm comp S' r hw hnode' hmut h
+  refine ⟨hr, hres.wf, fun ρ hc => ?_, hres.nodes, hres.notIdx, hres.opts⟩
+  rw [keyVal_pos ρ n hn]; exact hres.sem ρ hc
+
+/-- Reading of the node-array clause of `C11_addDisjunct`: all other nodes are unchanged, at most one is appended. -/
+theorem C11_addDisjunct_others_unchanged {S S' : Store} {k : Int} {children : List Key} {nm : Option Name}
+    {comp r : Key} (hw : WF S) (hnode : S.getNode? k = some (.disj children nm)) (hk : 0 < k)
+    (hmut : ∀ cs, lookup S.idxDisj cs ≠ some k.toNat)
+    (h : S.addDisjunct (some k) comp = .ok (S', r)) :
+    S'.nodes.length ≤ S.nodes.length + 1 ∧
+    ∀ j, j < S.nodes.length → j ≠ k.toNat - 1 → S'.nodes[j]? = S.nodes[j]? := by
+  obtain ⟨_, _, _, ⟨ext, newch, hext, hnodes⟩, _, _⟩ := C11_addDisjunct hw hnode hk hmut h
+  refine ⟨by rw [hnodes]; simp; omega, fun j hj hne => ?_⟩
+  rw [hnodes, List.getElem?_set_ne (Ne.symm hne), List.getElem?_append_left hj]
+
+
+/-! ### 5. acyclic stores: the hypothesis `Consistent S' ρ` above is satisfiable, and pins the meaning down
+
+`Acyclic S`: every compound node's children are constants or refer to strictly earlier nodes; `keyBelow n k`: the key
+is a constant or refers to one of the first `n` nodes.  Everything the builder makes without `add_disjunct` is
+acyclic (`add_disjunct` is how cycles are made; for those the intended meaning is the least fixpoint, not covered
+here). -/
+
+/-- In an acyclic store every assignment `α` of the atoms extends to a consistent valuation, and any two consistent
+    valuations that agree on the atoms agree on every node: each key denotes exactly one Boolean function of the
+    atoms, so the equations of the theorems above determine the key's meaning. -/
+theorem C11_acyclic_exists_unique {S : Store} (ha : Acyclic S) :
+    (∀ α : Nat → Bool, ∃ ρ, Consistent S ρ ∧
+      (∀ i nd, S.nodes[i]? = some nd → nd.isAtom = true → ρ (i + 1) = α (i + 1)) ∧
+      (∀ j, S.nodes.length < j → ρ j = α j) ∧ ρ 0 = α 0) ∧
+    (∀ ρ1 ρ2, Consistent S ρ1 → Consistent S ρ2 →
+      (∀ i nd, S.nodes[i]? = some nd → nd.isAtom = true → ρ1 (i + 1) = ρ2 (i + 1)) →
+      ∀ k, keyBelow S.nodes.length k → keyVal ρ1 k = keyVal ρ2 k) := by
+  refine ⟨fun α => acyclic_exists ha α, fun ρ1 ρ2 h1 h2 hat k hk => ?_⟩
+  cases k with
+  | none => rfl
+  | some i =>
+    by_cases h0 : i = 0
+    · subst h0; rfl
+    · -- index 0 is never looked at for a non-zero key; patch ρ2 there
+      let ρ2' : Nat → Bool := fun j => if j = 0 then ρ1 0 else ρ2 j
+      have hkv : ∀ c : Key, keyVal ρ2' c = keyVal ρ2 c := by
+        intro c
+        cases c with
+        | none => rfl
+        | some j =>
+          by_cases hj : j = 0
+          · subst hj; rfl
+          · have : j.natAbs ≠ 0 := by omega
+            simp only [keyVal, hj, if_false, ρ2', this]
+      have hfun : keyVal ρ2' = keyVal ρ2 := funext hkv
+      have h2' : Consistent S ρ2' := by
+        intro n
+        have hn : n + 1 ≠ 0 := by omega
+        refine ⟨fun cs nm h => ?_, fun cs nm h => ?_⟩
+        · show (if n + 1 = 0 then _ else ρ2 (n + 1)) = _
+          rw [if_neg hn, (h2 n).1 cs nm h, hfun]
+        · show (if n + 1 = 0 then _ else ρ2 (n + 1)) = _
+          rw [if_neg hn, (h2 n).2 cs nm h, hfun]
+      have hall := acyclic_unique ha h1 h2' (fun n nd h hat' => by
+        show _ = (if n + 1 = 0 then _ else ρ2 (n + 1))
+        rw [if_neg (by omega)]; exact hat n nd h hat') (by show ρ1 0 = (if 0 = 0 then ρ1 0 else _); rfl)
+      rw [← hkv (some i)]
+      exact keyVal_congr (n := S.nodes.length) hall hk
+
+theorem C11_acyclic_empty (o : Opts) : Acyclic { opts := o } := fun _ _ h => by cases h
+
+/-- `_add_compound` on arguments that refer to existing nodes keeps the store acyclic and returns such a key. -/
+theorem C11_addCompound_acyclic {S S' : Store} {kind : Kind} {content : List Key} {readonly : Bool}
+    {name : Option Name} {placeholder : Bool} {compact : Option Bool} {k : Key} (hw : WF S) (ha : Acyclic S)
+    (hcontent : ∀ c ∈ content, keyBelow S.nodes.length c)
+    (h : addCompound S kind content readonly name placeholder compact = .ok (S', k)) :
+    Acyclic S' ∧ keyBelow S'.nodes.length k :=
+  have hc := addCompound_cres _ _ _ _ _ _ _ _ _ h
+  ⟨hc.acyclic ha hcontent, hc.key_below hw hcontent⟩
+
+theorem C11_addAtom_acyclic {S S' : Store} {ident : Ident} {pc : PClass} {w : Weight} {group : Option Nat}
+    {name : Option Name} {crExtra isExtra : Bool} {k : Key} (hw : WF S) (ha : Acyclic S)
+    (h : S.addAtom ident pc w group name crExtra isExtra = (S', k)) :
+    Acyclic S' ∧ keyBelow S'.nodes.length k := by
+  have hs := addAtom_step S ident pc w group name crExtra isExtra
+  have hk := addAtom_key S ident pc w group name crExtra isExtra
+  rw [h] at hs hk
+  refine ⟨hs.2.2.2 ha, ?_⟩
+  rcases hk with ⟨_, rfl | rfl⟩ | ⟨i, rfl, hl⟩
+  · show (0 : Int).natAbs ≤ _; simp
+  · trivial
+  · obtain ⟨hi, g, e, nm, hn⟩ := (hs.1 hw).atom ident i hl
+    have hlt : i - 1 < S'.nodes.length := lt_of_get hn
+    show (i : Int).natAbs ≤ _
+    rw [Int.natAbs_natCast]; omega
+
+theorem C11_addName_acyclic {S : Store} (ha : Acyclic S) (n : Name) (k : Key) (l : Label) (keep : Bool) :
+    Acyclic (S.addName n k l keep) ∧ (S.addName n k l keep).nodes.length = S.nodes.length :=
+  ⟨addName_acyclic ha n k l keep, addName_length S n k l keep⟩
+
+theorem C11_keyBelow_negate (n : Nat) (k : Key) (h : keyBelow n k) : keyBelow n (negate k) := keyBelow_negate n k h
+
+theorem C11_keyBelow_grows {S S' : Store} (hg : Grows S S') {k : Key} (h : keyBelow S.nodes.length k) :
+    keyBelow S'.nodes.length k := by
+  obtain ⟨ext, he⟩ := hg
+  have := congrArg List.length he
+  simp only [List.length_map, List.length_append] at this
+  exact keyBelow_mono (by omega) h
+
+/-! ### 6. non-vacuity: concrete stores built with the model's own functions -/
+
+theorem C11_wf_empty (o : Opts) : WF { opts := o } :=
+  ⟨fun _ _ h => (by cases h), fun _ _ h => (by cases h), fun _ _ h => (by cases h)⟩
+
+theorem wf_addAtom {S : Store} (hw : WF S) (ident : Ident) (pc : PClass) (w : Weight) (group : Option Nat)
+    (name : Option Name) (crExtra isExtra : Bool) : WF (S.addAtom ident pc w group name crExtra isExtra).1 :=
+  (C11_addAtom_grows hw (k := (S.addAtom ident pc w group name crExtra isExtra).2) rfl).1
+
+/-- three atoms, default options -/
+def exE3 : Store :=
+  ((((({} : Store).addAtom (.user 1) .normal .neutral).1.addAtom (.user 2) .normal .neutral (name := some (.pos 7))).1).addAtom
+    (.user 3) .normal .neutral (group := some 1)).1
+
+theorem exE3_wf : WF exE3 :=
+  wf_addAtom (wf_addAtom (wf_addAtom (C11_wf_empty {}) _ _ _ _ _ _ _) _ _ _ _ _ _ _) _ _ _ _ _ _ _
+
+def okStore (r : Except Err (Store × Key)) : Store :=
+  match r with
+  | .ok (S, _) => S
+  | .error _ => {}
+
+/-- A WF store reached by a few operations (atoms incl. a named one and an AD member, a shared conjunction,
+    a renamed single child, a mutable disjunction). -/
+def exE4 : Store := okStore (exE3.addAnd [some 1, some (-2), some 1, some 0])
+def exE5 : Store := okStore (exE4.addOr [some 3, none] (name := some (.pos 5)))
+def exE6 : Store := okStore (exE5.addOr [some 4, some 2] (readonly := false))
+
+example : exE6.nodes.length = 5 ∧ exE6.idxConj = [([some 1, some (-2)], 4)] ∧ exE6.idxDisj = [] := by decide
+
+theorem exE4_spec : WF exE4 ∧ Grows exE3 exE4 ∧
+    (∀ ρ, Consistent exE4 ρ → keyVal ρ (some 4) = [some 1, some (-2), some 1, some 0].all (keyVal ρ)) ∧
+    exE4.opts = exE3.opts := C11_addAnd (S := exE3) (S' := exE4) (cs := [some 1, some (-2), some 1, some 0]) (name := none)
+  (compact := none) (k := some 4) exE3_wf rfl
+theorem exE5_spec : WF exE5 ∧ Grows exE4 exE5 ∧
+    (∀ ρ, Consistent exE5 ρ → keyVal ρ (some 3) = [some 3, none].any (keyVal ρ)) ∧
+    exE5.opts = exE4.opts := C11_addOr (S := exE4) (S' := exE5) (cs := [some 3, none]) (readonly := true)
+  (name := some (.pos 5)) (placeholder := false) (compact := none) (k := some 3) exE4_spec.1 rfl
+theorem exE6_spec : WF exE6 ∧ Grows exE5 exE6 ∧
+    (∀ ρ, Consistent exE6 ρ → keyVal ρ (some 5) = [some 4, some 2].any (keyVal ρ)) ∧
+    exE6.opts = exE5.opts := C11_addOr (S := exE5) (S' := exE6) (cs := [some 4, some 2]) (readonly := false)
+  (name := none) (placeholder := false) (compact := none) (k := some 5) exE5_spec.1 rfl
+theorem exE6_wf : WF exE6 := exE6_spec.1
+
+theorem exE3_acyclic : Acyclic exE3 :=
+  (addAtom_step _ _ _ _ _ _ _ _).2.2.2 ((addAtom_step _ _ _ _ _ _ _ _).2.2.2
+    ((addAtom_step _ _ _ _ _ _ _ _).2.2.2 (C11_acyclic_empty {})))
+
+-- `exE4` (three atoms and the conjunction `1 ∧ ¬2`) is acyclic, so consistent valuations exist for every atom
+-- assignment and the conclusion of `C11_addAnd` is not vacuous there.
+example : Acyclic exE4 ∧ keyBelow exE4.nodes.length (some 4) :=
+  C11_addCompound_acyclic (S := exE3) (S' := exE4) (kind := .conj) (content := [some 1, some (-2), some 1, some 0])
+    (readonly := true) (name := none) (placeholder := false) (compact := none) exE3_wf exE3_acyclic (by decide) rfl
+
+-- Theorem 1: the premises hold for a concrete pair of stores, and the conclusion is informative.
+example : Grows exE3 exE6 ∧ ∀ ρ, Consistent exE6 ρ → keyVal ρ (some 4) = (ρ 1 && !ρ 2) := by
+  refine ⟨exE4_spec.2.1.trans (exE5_spec.2.1.trans exE6_spec.2.1), ?_⟩
+  refine C11_earlier_keys_keep_meaning (exE5_spec.2.1.trans exE6_spec.2.1) (some 4) (fun ρ => ρ 1 && !ρ 2)
+    (fun ρ hc => ?_)
+  rw [exE4_spec.2.2.1 ρ hc]
+  simp [keyVal]
+  cases ρ 1 <;> cases ρ 2 <;> rfl
+
+-- Theorem 2: hypotheses met by concrete calls (hash-consing hit, fold to FALSE, single-child rename, placeholder).
+example : ∃ S', exE6.addAnd [some (-2), some 1] = .ok (S', some 6) ∧ S'.nodes.length = 6 := ⟨_, rfl, by decide⟩
+example : exE6.addAnd [some 0, some 1, some (-2)] = .ok (exE6, some 4) := rfl
+example : exE6.addAnd [some 1, some 2, some (-1)] = .ok (exE6, none) := rfl
+example : ∃ S', exE6.addOr [none, some 1] (name := some (.pos 9)) = .ok (S', some 1) ∧
+    S'.nodes[0]? = some (.atom (.user 1) none false (some (.pos 9))) := ⟨_, rfl, by decide⟩
+example : ∃ S', exE6.addOr [] (placeholder := true) = .ok (S', some 6) ∧ S'.nodes[5]? = some (.disj [] none) :=
+  ⟨_, rfl, by decide⟩
+/-- `exE6` under other options (name clash avoidance on, sharing off, compaction requested per call). -/
+def exK6 : Store := { exE6 with opts := { avoidNameClash := true, keepAll := true, autoCompact := false } }
+example : WF exK6 := ⟨exE6_wf.conj, exE6_wf.disj, exE6_wf.atom⟩
+example : ∃ S', exK6.addOr [some 2] (name := some (.pos 9)) (compact := some true) = .ok (S', some 6) ∧
+    S'.nodes[5]? = some (.disj [some 2] (some (.pos 9))) := ⟨_, rfl, by decide⟩
+
+-- Theorem 3: `exE3_wf` above uses `C11_addAtom_grows` three times; the AD path that appends the extra atom:
+example : ∃ S' k, exE3.addAtom (.user 4) .normal .neutral (group := some 1) = (S', k) ∧ k = some 4 ∧
+    S'.nodes.length = 5 ∧ S'.nodes[4]? = some (.atom (.extra 1) (some 1) true (some (.extra 1))) :=
+  ⟨_, _, rfl, by decide, by decide, by decide⟩
+example : WF (exE6.addName (.pos 3) (some (-5)) .query) := (C11_addName_preserves exE6_wf _ _ _ _ (fun _ => true)).1
+
+-- Theorem 4: node 5 of `exE6` is a mutable disjunction `[4, 2]`.
+example : exE6.getNode? 5 = some (.disj [some 4, some 2] none) ∧ (∀ cs, lookup exE6.idxDisj cs ≠ some (5 : Int).toNat) ∧
+    ∃ S', exE6.addDisjunct (some 5) (some (-3)) = .ok (S', some 5) ∧
+      S'.nodes[4]? = some (.disj [some 4, some 2, some (-3)] none) :=
+  ⟨rfl, fun _ h => (by cases h), _, rfl, by decide⟩
+
+def exM3 : Store :=
+  ((((({ opts := { maxArity := 2 } } : Store).addAtom (.user 1) .normal .neutral).1.addAtom (.user 2) .normal
+      .neutral).1).addAtom (.user 3) .normal .neutral).1
+
+theorem exM3_wf : WF exM3 :=
+  wf_addAtom (wf_addAtom (wf_addAtom (C11_wf_empty { maxArity := 2 }) _ _ _ _ _ _ _) _ _ _ _ _ _ _) _ _ _ _ _ _ _
+
+/-- `maxArity = 2`, three atoms and a mutable disjunction `[1, 2]` (node 4). -/
+def exM4 : Store := okStore (exM3.addOr [some 1, some 2] (readonly := false))
+
+theorem exM4_wf : WF exM4 :=
+  (C11_addOr (S := exM3) (S' := exM4) (cs := [some 1, some 2]) (readonly := false) (name := none)
+    (placeholder := false) (compact := none) (k := some 4) exM3_wf rfl).1
+
+-- the `maxArity` split: a new shared node 5 = `[1, 2]`, node 4 becomes `[5, 3]`
+example : exM4.getNode? 4 = some (.disj [some 1, some 2] none) ∧ (∀ cs, lookup exM4.idxDisj cs ≠ some (4 : Int).toNat) ∧
+    ∃ S', exM4.addDisjunct (some 4) (some 3) = .ok (S', some 4) ∧
+      S'.nodes[3]? = some (.disj [some 5, some 3] none) ∧ S'.nodes[4]? = some (.disj [some 1, some 2] none) :=
+  ⟨rfl, fun _ h => (by cases h), _, rfl, by decide, by decide⟩
+
+/-- Same, but node 4 = `[1, 2]` is a *read-only* (hash-consed) disjunction. -/
+def exH4 : Store := okStore (exM3.addOr [some 1, some 2])
+
+theorem exH4_wf : WF exH4 :=
+  (C11_addOr (S := exM3) (S' := exH4) (cs := [some 1, some 2]) (readonly := true) (name := none)
+    (placeholder := false) (compact := none) (k := some 4) exM3_wf rfl).1
+
+/-- The hypothesis `hmut` of `C11_addDisjunct` cannot be dropped: `add_disjunct` on a hash-consed disjunction with
+    `max_arity` reached makes the inner `add_or(children)` return the node itself; node 4 becomes `[4, 3]`, and the
+    valuation "all atoms false, node 4 true" is consistent although `(ρ 1 || ρ 2) || ρ 3 = false`.
+    (Same on the real code: `LogicFormula(max_arity=2)`, `k = add_or([a, b])`, `add_disjunct(k, c)` gives
+    `disj(children=(4, 3))`; the builder's callers only pass mutable nodes.) -/
+theorem C11_addDisjunct_hashconsed_refuted :
+    ∃ (S S' : Store) (k : Int) (children : List Key) (nm : Option Name) (comp r : Key) (ρ : Nat → Bool),
+      WF S ∧ S.getNode? k = some (.disj children nm) ∧ 0 < k ∧ S.addDisjunct (some k) comp = .ok (S', r) ∧
+      Consistent S' ρ ∧ keyVal ρ (some k) ≠ (children.any (keyVal ρ) || keyVal ρ comp) := by
+  refine ⟨exH4, _, 4, [some 1, some 2], none, some 3, _, fun i => i == 4, exH4_wf, rfl, by decide, rfl, ?_, by decide⟩
+  intro i
+  match i with
+  | 0 | 1 | 2 => exact ⟨fun cs nm h => (by cases h), fun cs nm h => (by cases h)⟩
+  | 3 =>
+    refine ⟨fun cs nm h => (by cases h), fun cs nm h => ?_⟩
+    have : cs = [some 4, some 3] := by cases h; rfl
+    subst this; decide
+  | i + 4 => exact ⟨fun cs nm h => (by cases h), fun cs nm h => (by cases h)⟩
 
 end ProbLogProofs.C11
